@@ -34,7 +34,7 @@ PROBES = ['rejection_repeated_on_retry', 'duplicate_between_two_later_parts', 't
           'request_after_gc_rebuilt', 'identity_while_held', 'file_removed_after_load',
           'unpickled_database_answered', 'invalid_description_rejected',
           'files_rewritten_between_two_database_objects',
-          'constructor_given_a_list_or_tuple_of_parts']
+          'constructor_given_a_list_or_tuple_of_parts', 'two_client_threads']
 BUDGET = {
     'quick': {'families': 10000, 'wall_cap': 420, 'shrink_s': 10},
     'thorough': {'families': 100000, 'wall_cap': 5400, 'shrink_s': 30},
@@ -130,6 +130,18 @@ def gen(rng, tier, index):
         pass
     names = sorted({n for p in parts for n in p['datasets']})
     aliases = sorted({n for p in parts for n in p.get('alias', {})})
+    if invalid is None and names and rng.random() < 0.08:
+        # two client threads under the thread scheduler
+        cases = []
+        pool_ = names + aliases
+        for j in range(3):
+            plans = [[rng.choice(pool_[:2] if rng.random() < 0.7 else pool_)
+                      for _ in range(rng.randrange(2, 5))] for _t in range(2)]
+            cases.append({'mode': 'concurrent', 'parts': parts, 'plans': plans, 'backend': 'dict',
+                          'ops': [], 'invalid': None,
+                          'sched': {'policy': rng.choice(['random', 'sticky']), 'params': {'p': 0.5},
+                                    'seed': rng.randrange(1 << 30)}})
+        return cases
     cases = []
     for j in range(3):
         ops = []
@@ -216,7 +228,77 @@ def _norm_source(d):
     return out
 
 
+def run_concurrent(case):
+    """Two client threads request, hold briefly and release the same datasets of
+    one (valid, Dict-backed) database under the seeded thread scheduler with
+    line-granular pre-emption of lazy_dataset/database.py: every request is
+    answered with the stored content, whatever the other client releases
+    meanwhile."""
+    import threading
+    from .. import sim as S
+    parts = case['parts']
+    violations, probes, fired = [], {}, {}
+    results = []
+    with warnings.catch_warnings(record=True):
+        warnings.simplefilter('always')
+        with S.building():
+            db = ldb.DictDatabase(*copy.deepcopy(parts))
+        sim = S.Sim(case['sched'], trace_files=[ldb.__file__])
+
+        def client(cid, plan):
+            for req in plan:
+                try:
+                    ds = db.get_dataset(req)
+                    got = list(ds.items())
+                    sim.yield_point('client')
+                    ds = None
+                    results.append((cid, req, 'ok', [(k, W.norm(v)) for k, v in got]))
+                except Exception as e:
+                    results.append((cid, req, 'exc', '%s: %s' % (type(e).__name__, str(e)[:80])))
+                sim.yield_point('client')
+
+        with S.simulation(sim):
+            try:
+                ts = [threading.Thread(target=client, args=(c, p))
+                      for c, p in enumerate(case['plans'])]
+                for t in ts:
+                    t.start()
+                for t in ts:
+                    t.join()
+                sim.drain()
+            except S.SimAbort:
+                pass
+    if sim.failure:
+        violations.append(hist.viol('hang', 'hang:concurrent_clients',
+                                    'two concurrent clients: %s' % sim.failure))
+    for cid, req, kind, val in results:
+        if violations:
+            break
+        k_, exp = model_expected(parts, req)
+        if k_ != 'ok':
+            continue
+        if kind == 'exc':
+            violations.append(hist.viol(
+                'request_failed', 'request_failed:concurrent_clients:' + val.split(':')[0],
+                'get_dataset(%r) raised %s while another client was requesting / releasing '
+                'the same datasets' % (req, val)))
+        elif val != [(a, W.norm(b)) for a, b in exp]:
+            violations.append(hist.viol(
+                'wrong_content', 'wrong_content:concurrent_clients',
+                'get_dataset(%r) yields %s, stored content is %s'
+                % (req, W.short(val, 150), W.short(exp, 150))))
+    probes['two_client_threads'] = 1
+    fired['concurrent_clients'] = 1
+    fired['backend_dict'] = 1
+    return hist.outcome(case, nontrivial=True, key=hist.hkey(case), violations=violations,
+                        fired=fired, probes=probes,
+                        stats={'ops': sum(len(p) for p in case['plans'])},
+                        sample={'case': case}, digest_extra=[results])
+
+
 def run(case):
+    if case.get('mode') == 'concurrent':
+        return run_concurrent(case)
     parts = case['parts']
     violations, probes, fired = [], {}, {}
     tmp = None
